@@ -10,7 +10,7 @@ from vlib import renv
 
 PROPERTY = "C14"
 RULE = ("enumerated upgrade histories {USR2 then TERM old | QUIT old | TERM new | QUIT new | INT old | INT new | second USR2 while pending | "
-        "USR2, TERM old, USR2 on the promoted master, TERM first-new | USR2, TERM new, USR2 again | daemon mode: USR2, WINCH old, HUP old, TERM new} x bind {tcp, unix} x worker class "
+        "USR2, TERM old, USR2 on the promoted master, TERM first-new | USR2, TERM new, USR2 again | daemon mode: USR2, WINCH old, HUP old, TERM new | systemd socket activation (LISTEN_FDS): USR2, TERM old} x bind {tcp, unix} x worker class "
         "{sync, gthread} with seeded sub-second jitter, on two (or three) real masters started from the working tree under a "
         "connect-loop client. Oracle: no connect is ever refused; after USR2 the configured pid file names the old master and '<pidfile>.2' "
         "the new one; once the old master is gone the configured name holds the new pid within 3 s and '.2' is absent; if the new one goes "
@@ -25,7 +25,7 @@ ASSUMPTIONS = [
 BUDGET = {"quick": (16, 0), "thorough": (16, 0)}
 
 HISTORIES = ["term-old", "quit-old", "term-new", "quit-new", "int-old", "int-new", "usr2-twice", "upgrade-twice", "rollback-then-upgrade",
-             "daemon-rollback"]
+             "daemon-rollback", "systemd-term-old"]
 
 
 def extra_cases(tier, seed, shard, nshards):
@@ -89,7 +89,7 @@ def run_case(case):
     h, bind, kind = case["history"], case["bind"], case["kind"]
     classes = ["history:" + h, "bind:" + bind, "kind:" + kind]
     srv = renv.Server(kind=kind, workers=2, bind=bind, graceful=3, timeout=30, threads=2 if kind == "gthread" else None,
-                      daemon=(h == "daemon-rollback"))
+                      daemon=(h == "daemon-rollback"), systemd=h.startswith("systemd"))
     vio = []
 
     def V(clause, sig, observed=None, expected=None):
@@ -101,6 +101,8 @@ def run_case(case):
 
     def upgrade(master, label):
         """USR2 to `master`; -> pid of the new master or None"""
+        if h.startswith("systemd"):
+            label = label + ":systemd"
         os.kill(master, signal.SIGUSR2)
         new = wait_for(lambda: (read_pid(pf2) if read_pid(pf2) and renv.alive(read_pid(pf2)) and renv.children(read_pid(pf2)) else None), 12)
         if not new:
@@ -146,7 +148,12 @@ def run_case(case):
         if new:
             time.sleep(case.get("jitter", 0.1))
             sig = {"term": signal.SIGTERM, "quit": signal.SIGQUIT, "int": signal.SIGINT}
-            if h in ("term-old", "quit-old", "int-old"):
+            if h == "systemd-term-old":
+                if not kill_and_wait(old, signal.SIGTERM, True):
+                    V("old-exits", "old-master-did-not-exit", None, "exit")
+                expect_promoted(new, old, h)
+                expect_serving(h)
+            elif h in ("term-old", "quit-old", "int-old"):
                 if not kill_and_wait(old, sig[h.split("-")[0]], True):
                     V("old-exits", "old-master-did-not-exit", None, "exit")
                 expect_promoted(new, old, h)
